@@ -3214,6 +3214,26 @@ class PyCdlib:
 
         return 0
 
+    def _remove_rr_ce_entry(self, rec):
+        # type: (dr.DirectoryRecord) -> int
+        """
+        An internal method to release the Rock Ridge CE entry of a record that
+        is being removed from the ISO.
+
+        Parameters:
+         rec - The record to release the Rock Ridge CE entry for (if it exists).
+        Returns:
+         The number of bytes no longer needed for this Rock Ridge CE entry.
+        """
+        if rec.rock_ridge is not None and rec.rock_ridge.dr_entries.ce_record is not None and rec.rock_ridge.ce_block is not None:
+            ce_record = rec.rock_ridge.dr_entries.ce_record
+            if self.pvd.remove_rr_ce_entry(rec.rock_ridge.ce_block,
+                                           ce_record.offset_cont_area,
+                                           ce_record.len_cont_area):
+                return self.logical_block_size
+
+        return 0
+
     def _finish_add(self, num_bytes_to_add, num_partition_bytes_to_add):
         # type: (int, int) -> None
         """
@@ -3570,6 +3590,7 @@ class PyCdlib:
         while not done:
             num_bytes_to_remove += self._remove_child_from_dr(rec,
                                                               rec.index_in_parent)
+            num_bytes_to_remove += self._remove_rr_ce_entry(rec)
 
             if rec.inode is not None:
                 found_index = None
@@ -3896,6 +3917,7 @@ class PyCdlib:
         if child.inode is None:
             num_bytes_to_remove += self._remove_child_from_dr(child,
                                                               child.index_in_parent)
+            num_bytes_to_remove += self._remove_rr_ce_entry(child)
         else:
             self._check_inode_against_eltorito(child.inode)
             while child.inode.linked_records:
@@ -5477,17 +5499,13 @@ class PyCdlib:
                 if cl.children:
                     raise pycdlibexception.PyCdlibInvalidISO('Parent link should have no children!')
                 num_bytes_to_remove += self._remove_child_from_dr(cl, clindex)
-                if cl.rock_ridge is not None and cl.rock_ridge.dr_entries.ce_record is not None and cl.rock_ridge.ce_block is not None:
-                    cl.rock_ridge.ce_block.remove_entry(cl.rock_ridge.dr_entries.ce_record.offset_cont_area,
-                                                        cl.rock_ridge.dr_entries.ce_record.len_cont_area)
+                num_bytes_to_remove += self._remove_rr_ce_entry(cl)
 
                 # We do not remove additional space from the PVD for the
                 # child_link record because it is a 'fake' record that has no
                 # size.
 
-            if child.rock_ridge is not None and child.rock_ridge.dr_entries.ce_record is not None and child.rock_ridge.ce_block is not None:
-                child.rock_ridge.ce_block.remove_entry(child.rock_ridge.dr_entries.ce_record.offset_cont_area,
-                                                       child.rock_ridge.dr_entries.ce_record.len_cont_area)
+            num_bytes_to_remove += self._remove_rr_ce_entry(child)
 
         if joliet_path is not None:
             num_bytes_to_remove += self._rm_joliet_dir(joliet_path_bytes)
